@@ -810,6 +810,10 @@ fn format_leading_comment(content: &str, cur_indent: usize, max_line_width: usiz
         for word in orig_comment_line.content.split(' ') {
             if current_line.content.is_empty()
                 || current_line.content.len() + word.len() <= max_comment_width
+                // The empty word of a double space never starts a line of its own.
+                || word.trim().is_empty()
+                // A word that would be read back as part of the comment prefix stays on its line.
+                || (orig_comment_line.n_leading_spaces == 0 && word.starts_with(['/', '!']))
             {
                 current_line.content.push_str(word);
                 current_line.content.push(' ');
